@@ -4,6 +4,7 @@ import TantivyModel.Proofs.GrammarCharsField
 import TantivyModel.Proofs.GrammarCharsSfx
 import TantivyModel.Proofs.GrammarCharsRange
 import TantivyModel.Proofs.GrammarCharsSet
+import TantivyModel.Proofs.GrammarCharsEsc
 namespace TantivyModel.Grammar.Chars
 open TantivyModel.Grammar
 
@@ -115,7 +116,7 @@ theorem goodOpd_not (g : Bool) (k : Nat) (o : Opd) (ho : GoodOpd g o) : GoodOpd 
     simp only [notOpd, List.length_cons, List.length_append]
     omega
 
-/-- the well-formed fragment: plain words, double-quoted phrases without escapes (optionally with a slop `~n` or the prefix star), either of them with a field prefix `name:`, bracketed ranges `[a TO b]`/`{a TO b}` (also mixed, also with a field prefix), sets `IN [a b c]` of plain words (any blanks, also with a field prefix), `NOT x` of a well-formed operand, and parenthesised lists of well-formed operands with
+/-- the well-formed fragment: plain words, double-quoted phrases without escapes (optionally with a slop `~n` or the prefix star), double-quoted phrases of any characters at all printed with `\"` and `\\` escapes, either of them with a field prefix `name:`, bracketed ranges `[a TO b]`/`{a TO b}` (also mixed, also with a field prefix), sets `IN [a b c]` of plain words (any blanks, also with a field prefix), `NOT x` of a well-formed operand, and parenthesised lists of well-formed operands with
     markers, AND/OR and any layout -/
 inductive WFOpd : Opd → Prop where
   | word (w : Str) (hw : PlainWord w) : WFOpd (wordOpd w)
@@ -131,6 +132,8 @@ inductive WFOpd : Opd → Prop where
   | set (k0 k1 : Nat) (w : Str) (more : List (Nat × Str)) (h : PlainElems w more) : WFOpd (setOpd k0 k1 w more)
   | fieldSet (f : Str) (k0 k1 : Nat) (w : Str) (more : List (Nat × Str)) (hf : PlainWord f) (h : PlainElems w more) :
       WFOpd (fieldSetOpd f k0 k1 w more)
+  | phraseEsc (body : Str) (x : Sfx) (hx : WFSfx x) : WFOpd (phraseEscOpd body x)
+  | fieldPhraseEsc (f body : Str) (x : Sfx) (hf : PlainWord f) (hx : WFSfx x) : WFOpd (fieldPhraseEscOpd f body x)
   | not (k : Nat) (o : Opd) (ho : WFOpd o) : WFOpd (notOpd k o)
   | group (lead : Nat) (occ : Option Occur) (o : Opd) (more : List PItem) (k : Nat)
       (ho : WFOpd o) (hm : ∀ it ∈ more, WFOpd it.opd) : WFOpd (groupOpd lead occ o more k)
@@ -147,6 +150,8 @@ theorem wf_good (g : Bool) (o : Opd) (h : WFOpd o) : GoodOpd g o := by
   | fieldRange f lo hi w1 w2 hf h1 h2 => exact goodOpd_fieldRange g f lo hi w1 w2 hf h1 h2
   | set k0 k1 w more h => exact goodOpd_set g k0 k1 w more h
   | fieldSet f k0 k1 w more hf h => exact goodOpd_fieldSet g f k0 k1 w more hf h
+  | phraseEsc body x hx => exact goodOpd_phraseEsc g body x hx
+  | fieldPhraseEsc f body x hf hx => exact goodOpd_fieldPhraseEsc g f body x hf hx
   | not k o _ ih => exact goodOpd_not g k o ih
   | group lead occ o more k _ _ iho ihm => exact goodOpd_group g lead occ o more k iho ihm
 
